@@ -37,10 +37,11 @@ def semantic_check(ctx, rng, cfg, d, raw, info, trials=6):
         return True
     for trial in range(trials):
         doc = es.gen_doc(rng, containers)
-        truth = es.Truth(rng)
+        truth = es.Truth(rng, p=(0.5, 0.5, 0.5, 0.02, 0.98, 0.5)[trial % 6], polar=(None, None, None, True, False, True)[trial % 6])
         try:
-            a = es.eval_es(raw, doc, truth)
+            # (the tree is evaluated first: in the polarised trials it decides the value of every clause it mentions)
             b = es.denote(d, doc, cfg, containers, truth)
+            a = es.eval_es(raw, doc, truth)
         except ValueError:
             return True
         if a != b:
